@@ -18,7 +18,8 @@ RULE = ("for every constructor registered in the working tree (enumerated by ref
         "(random depth-limited nesting through interfaces and vectors, boundary integers / doubles incl. NaN and -0.0, "
         "128/256-bit integers with leading zero bytes, strings around the 254-byte header switch, nil / empty / "
         "populated slices), every presence pattern of every flag group holding more than one field, every enum "
-        "member, message containers; plus byte strings on both sides of every header boundary. Each value is "
+        "member, vectors of 255..3000 elements (thorough: up to 10000) of every element kind, message containers (incl. "
+        "members with empty bodies in every position but the last); plus byte strings on both sides of every header boundary. Each value is "
         "marshalled, decoded by name and by constructor id by the real code and by the Lean model (outputs "
         "compared), and judged by the round-trip law itself. distinct = distinct operation lines")
 
